@@ -101,6 +101,8 @@ def proxy_case(draw: Any) -> Dict[str, Any]:
         "mode": mode, "hops": draw(st.integers(0, 4)), "headers": headers, "attacker": attacker,
         "type": draw(st.sampled_from(["http", "http", "websocket", "lifespan"])),
         "app_mutates": draw(st.booleans()),
+        # an earlier request through the same middleware instance must leave no trace
+        "warm": draw(st.booleans()),
     }
 
 
@@ -187,6 +189,15 @@ def _call_proxy(case: Dict[str, Any], headers: List[List[str]]) -> Tuple[dict, d
         pass
 
     mw = ProxyFixMiddleware(app, mode=case["mode"], trusted_hops=case["hops"])
+    if case.get("warm"):
+        earlier = _make_scope("http", [
+            ["host", "earlier.example"], ["x-forwarded-for", "9.9.9.9, 8.8.8.8, 7.7.7.7, 5.5.5.5"],
+            ["x-forwarded-proto", "wss, wss, wss, wss"],
+            ["x-forwarded-host", "e1.test, e2.test, e3.test, e4.test"],
+            ["forwarded", "for=9.9.9.9;host=e1.test;proto=wss, for=8.8.8.8;host=e2.test;proto=wss,"
+                          " for=7.7.7.7;host=e3.test;proto=wss, for=5.5.5.5;host=e4.test;proto=wss"]])
+        run_sync(mw(earlier, receive, send))
+        seen.clear()
     run_sync(mw(scope, receive, send))
     if "scope" not in seen:
         raise Violation("proxyfix_app_not_called", "")
@@ -255,7 +266,12 @@ def dispatch_case(draw: Any) -> Dict[str, Any]:
     path = "/" + draw(_seg)
     if mounts and draw(st.booleans()):
         path = draw(st.sampled_from(mounts)) + draw(_seg)
-    return {"mounts": mounts, "path": path,
+    warm = None
+    if draw(st.booleans()):  # an earlier request through the same instance
+        warm = "/" + draw(_seg)
+        if mounts and draw(st.booleans()):
+            warm = draw(st.sampled_from(mounts)) + draw(_seg)
+    return {"mounts": mounts, "path": path, "warm": warm,
             "type": draw(st.sampled_from(["http", "http", "websocket"])),
             "variant": draw(st.sampled_from(["asyncio", "trio"]))}
 
@@ -284,6 +300,11 @@ def run_dispatch(case: Dict[str, Any]) -> CaseInfo:
     async def send(m: dict) -> None:
         sent.append(m)
 
+    if case.get("warm") is not None:
+        w = case["warm"]
+        run_sync(mw({"type": "http", "path": w, "raw_path": s2b(w), "headers": [],
+                     "query_string": b"", "root_path": ""}, receive, send))
+        del calls[:], sent[:]
     run_sync(mw(scope, receive, send))
     match = next((m for m in case["mounts"] if case["path"].startswith(m)), None)
     if match is None:
